@@ -47,6 +47,7 @@ class FakeCtl:
         self.current = {"file": False, "bytes": {k: 0 for k in files}, "alive": True, "src": None}
         self.realised = []
         self.popen = None
+        self.only = None          # if set: only Popen objects whose argv contains this word are ticked
         self.exit_code = exit_code
         self.t = 0
         self.pid = None
@@ -180,7 +181,7 @@ _orig_poll = subprocess.Popen.poll
 
 def _poll(self):
     c = FakeCtl.active
-    if c is not None:
+    if c is not None and (c.only is None or c.only in [str(a) for a in (self.args if isinstance(self.args, (list, tuple)) else [self.args])]):
         c.popen = self
         c.tick("poll")
     return _orig_poll(self)
